@@ -2,6 +2,7 @@ import DAVerif.Drv.Util
 import DAVerif.Drv.OSet
 import DAVerif.Drv.CC
 import DAVerif.Drv.OpsDrv
+import DAVerif.Drv.SqlDrv
 import DAVerif.Drv.Schema
 import DAVerif.Drv.EvalCache
 import DAVerif.Drv.DataSpace
@@ -13,7 +14,7 @@ Total: a malformed or unknown case answers `bad`.
 open Lean DAVerif.Drv
 
 def allHandlers : List (String × Handler) :=
-  OSetDrv.handlers ++ CCDrv.handlers ++ OpsDrv.handlers ++ SchemaDrv.handlers ++ EvalCacheDrv.handlers ++ DataSpaceDrv.handlers
+  OSetDrv.handlers ++ CCDrv.handlers ++ OpsDrv.handlers ++ SqlDrv.handlers ++ SchemaDrv.handlers ++ EvalCacheDrv.handlers ++ DataSpaceDrv.handlers
 
 def answer (line : String) : Json :=
   match Json.parse line with
